@@ -32,7 +32,10 @@ META = {
     "level_note": ("Trusted: Coq kernel; the hand model of the per-entry orchestration (validated by the correspondence run); "
                    "py2coq for the kernels (validated by C18). File-system conflicts found by transform.resolve_conflicts are "
                    "not modelled: the model only predicts WHEN they arise (raw result not a well-formed tree). "
-                   "The weave/lca text plans are not modelled (the laws never reach the text merger)."),
+                   "The weave/lca text plans are not modelled (the laws never reach the text merger). "
+                   "After the repair round (C17-nofinalpath-crash fixed in /repo bbc9cee) the model no longer predicts a "
+                   "NoFinalPath crash and the oracle reports one on any input; C17-nondir-parent-crash and "
+                   "C17-git-emptied-dir-conflict remain known findings."),
     "design_ref": "DESIGN.md §5 C17",
     "trusted_base": ["coq/Model/TreeMerge.v hand model of Merge3Merger._entries3/_entries_lca/_merge_names/_do_merge_contents/"
                      "_merge_executable (validated on this run)",
@@ -326,7 +329,8 @@ WITNESS_NONDIR = mk("2a", "merge3", [E(1, 0, "x", "d")], [E(1, 0, "x", "d"), E(3
 WITNESS_GITDIR = mk("git", "merge3", [E(1, 0, "a", "f", b"1-1\n"), E(3, 0, "x/a", "f", b"3-1\n3-2\n")],
                     [E(1, 0, "a", "f", b"1-1\n"), E(3, 0, "x/a", "f", b"3-1\n3-2\n"), E(4, 0, "x/b", "f", b"4-1\n4-2\n")],
                     [E(1, 0, "a", "f", b"1-1\n")], tag="gl4-emptied-dir")
-# THIS deleted directory 1 and its file, OTHER renamed the file inside it: NoFinalPath (not a law-shaped triple)
+# THIS deleted directory 1 and its file, OTHER renamed the file inside it: used to raise NoFinalPath
+# (C17-nofinalpath-crash, fixed in /repo bbc9cee); regression input: must give [] + a path conflict
 WITNESS_NOFINALPATH = mk("2a", "merge3", [E(1, 0, "x", "d"), E(3, 1, "a", "f", b"q\n")], [],
                          [E(1, 0, "x", "d"), E(3, 1, "b", "f", b"q\n")], tag="gen-nofinalpath")
 
@@ -596,7 +600,7 @@ def impl(inp):
         _state["uses"] = 99
         return Err("MalformedTransform")
     except _NoFinalPath:
-        # candidate finding (notes/C17.md): an entry renamed by OTHER into a directory that THIS no longer has
+        # C17-nofinalpath-crash (fixed in /repo bbc9cee): reported by the oracle if it ever returns
         _state["uses"] = 99
         return Err("NoFinalPath")
     wt2 = wt.controldir.open_workingtree()
@@ -853,6 +857,9 @@ def model_term(inp):
 # ---------------------------------------------------------------- oracle: the four laws on the implementation
 
 def oracle(inp, obs):
+    if obs == Err("NoFinalPath"):
+        # every merge of well-formed trees ends with a tree and a conflict list (repaired crash, bbc9cee)
+        return "merge failed with NoFinalPath instead of reporting a path conflict"
     base, this, other = (tlist(tdict(inp[k])) for k in ("base", "this", "other"))
     if any(tlist(tdict(l)) != base for l in inp.get("lcas", [])):
         return None                                  # the laws are stated relative to one common ancestor
